@@ -54,29 +54,38 @@ Proof. repeat split; vm_compute; reflexivity. Qed.
 (* ---- the unguarded discipline violates the property ------------------------ *)
 Local Open Scope N_scope.
 
-(* witness 1: thread 0 registers the placeholder of type 0 and is descheduled before
+(* (name 0 is the reserved [unsupported]; types are numbered from 1)
+   witness 1: thread 0 registers the placeholder of type 1 and is descheduled before
    linking it; thread 1 asks for type 0, finds the placeholder with To == nil and
    fails, although the call succeeds alone *)
-Definition w1_graph : graph := [(0, [1]); (1, [])].
-Definition w1_calls : list (list name) := [[0]; [0]].
+Definition w1_graph : graph := [(1, [2]); (2, [])].
+Definition w1_calls : list (list name) := [[1]; [1]].
 Definition w1_sched : list tid := [0; 0; 0; 1; 1]%nat.
 
 Lemma unguarded_refuted_root :
   nth 1%nat (results (run Unguarded 3 w1_graph w1_calls w1_sched)) [] = [RErr] /\
-  result_solo 3 w1_graph 0 = ROk (UNode 0 [UNode 1 []]) /\
-  results (run Unguarded 3 w1_graph [[0]] [0; 0; 0; 0; 0; 0; 0]%nat) = [[result_solo 3 w1_graph 0]].
+  result_solo 3 w1_graph 1 = ROk (UNode 1 [UNode 2 []]) /\
+  results (run Unguarded 3 w1_graph [[1]] [0; 0; 0; 0; 0; 0; 0]%nat) = [[result_solo 3 w1_graph 1]].
 Proof. repeat split; vm_compute; reflexivity. Qed.
 
 (* witness 2: thread 1 builds type 2, which refers to type 0 while thread 0 is still
    building it: the schema thread 1 gets back has an unlinked nested reference *)
-Definition w2_graph : graph := [(0, [1]); (1, []); (2, [0])].
-Definition w2_calls : list (list name) := [[0]; [2]].
+Definition w2_graph : graph := [(1, [2]); (2, []); (3, [1])].
+Definition w2_calls : list (list name) := [[1]; [3]].
 Definition w2_sched : list tid := [0; 0; 0; 1; 1; 1; 1; 1]%nat.
 
 Lemma unguarded_refuted_nested :
-  nth 1%nat (results (run Unguarded 3 w2_graph w2_calls w2_sched)) [] = [ROk (UNode 2 [UUnlinked 0])] /\
-  result_solo 3 w2_graph 2 = ROk (UNode 2 [UNode 0 [UNode 1 []]]).
+  nth 1%nat (results (run Unguarded 3 w2_graph w2_calls w2_sched)) [] = [ROk (UNode 3 [UUnlinked 1])] /\
+  result_solo 3 w2_graph 3 = ROk (UNode 3 [UNode 1 [UNode 2 []]]).
 Proof. repeat split; vm_compute; reflexivity. Qed.
+
+Lemma w1_calls_ok : calls_ok w1_calls.
+Proof.
+  intros t n Hin. unfold w1_calls in Hin. destruct t as [|[|t]]; cbn in Hin.
+  - destruct Hin as [<-|[]]; discriminate.
+  - destruct Hin as [<-|[]]; discriminate.
+  - destruct t; cbn in Hin; contradiction.
+Qed.
 
 (* under the guarded discipline the same schedules block thread 1 on the lock *)
 Lemma guarded_blocks_witness :
